@@ -89,6 +89,7 @@ class FuncSig:
         self.ok = False
         self.reason = None
         self.calls = set()
+        self.in_disp = False
 
 
 class Ctx:
@@ -139,6 +140,7 @@ class FuncTranslator:
         self.loop_depth = 0
         self.uses_today = False
         self.tuple_lits = {}
+        self.fdeps = set()         # modules / registries this function's Lean text refers to
         self.match_pat = {}        # python variable name -> compiled pattern its match object came from
         self.last_pattern = None
 
@@ -1351,6 +1353,9 @@ class FuncTranslator:
 
     def s_If(self, st, ind):
         p = '  ' * ind
+        fixed = getattr(self.sig, 'fixed', None) or {}
+        if isinstance(st.test, ast.Name) and st.test.id in fixed and st.test.id not in assigned_names(self.fn):
+            return self.stmts(st.body if fixed[st.test.id] else st.orelse, ind)
         c, ct = self.expr(st.test)
         cond = self.truthy(c, ct)
         out = [p + 'if %s then' % cond]
@@ -1484,6 +1489,8 @@ class FuncTranslator:
             if n in store:
                 head.append('  let mut %s := %s' % (ln, ln))
         self.param_names = {mangle(n) for n in self.sig.params}
+        for n, val in (getattr(self.sig, 'fixed', None) or {}).items():
+            self.env[n] = ('true' if val else 'false', 'bool')
         for g in self.m.cache_globals():
             # a module-level dict used as a cache: modelled as a local that starts empty (cold cache);
             # that warm and cold caches agree is property C13
@@ -1537,7 +1544,7 @@ class FuncTranslator:
         if self.sig.needs_today:
             params.append('(today__ : Date)')
         params += ['(%s : %s)' % (mangle(n), lean_type(t)) for n, t in zip(self.sig.params, self.sig.ptypes)]
-        headline = 'def %s %s : R %s := do' % (mangle(self.fn.name), ' '.join(params), par(lean_type(rt)))
+        headline = 'def %s %s : R %s := do' % (mangle(self.sig.name), ' '.join(params), par(lean_type(rt)))
         if self.uses_today and not self.sig.needs_today:
             self.m.ctx.extra_today.add((self.sig.modname, self.sig.name))
             raise Unsupported('reads the clock but was not marked (retry)')
